@@ -121,9 +121,18 @@ def gate_rule(ctx, R):
 
 def sibling_rule(ctx, R):
     n = 0
+    import helpers as HH
     for m in ('initiate', 'predict', 'project', 'update', 'distance'):
-        bb = ctx.anchor(R, BOX + '::' + m)
-        pb = ctx.anchor(R, PT + '::' + m)
+        if m == 'project':
+            bb, pb = HH.kalman_helper(ctx.F, BOX, 'project'), HH.kalman_helper(ctx.F, PT, 'project')
+            if bb is None or pb is None:
+                ctx.note(R, 'projection helper not found in both filters; sibling comparison of `project` skipped')
+                continue
+            ctx.read(bb)
+            ctx.read(pb)
+        else:
+            bb = ctx.anchor(R, BOX + '::' + m)
+            pb = ctx.anchor(R, PT + '::' + m)
         if bb is None or pb is None:
             continue
         cb = collections.Counter(c.name for c in bb.find_calls() if c.name in VOC)
@@ -151,12 +160,17 @@ def sibling_rule(ctx, R):
 
 def noise_source_rule(ctx, R):
     n = 0
+    import helpers as HH
     for m, state_param in (('predict', 2), ('project', None), ('initiate', None)):
-        b = ctx.anchor(R, BOX + '::' + m)
+        b = HH.kalman_helper(ctx.F, BOX, 'project') if m == 'project' else ctx.anchor(R, BOX + '::' + m)
         if b is None:
             continue
+        ctx.read(b)
         eb = ExprBuilder(b)
-        for c in b.find_calls(BOX + '::std_position', BOX + '::std_velocity'):
+        import helpers as HH
+        hp, hv = HH.kalman_helper(ctx.F, BOX, 'std_position'), HH.kalman_helper(ctx.F, BOX, 'std_velocity')
+        names = [x.npath for x in (hp, hv) if x is not None] or [BOX + '::std_position', BOX + '::std_velocity']
+        for c in b.find_calls(*names):
             h = eb.arg(c, 3)
             n += 1
             propagated = any(x.kind == 'call' and x.name.rsplit('::', 1)[-1] == 'mul' for x in h.walk())
@@ -191,10 +205,13 @@ def weights_rule(ctx, R):
         n += 1
         ctx.check(ok, R, b, flt.rsplit('::', 1)[-1] + ':new(position,velocity)', '',
                   'the constructor does not store (position_weight, velocity_weight) in that order')
+        import helpers as HH
         for h, w in (('std_position', 'std_position_weight'), ('std_velocity', 'std_velocity_weight')):
-            hb = ctx.anchor(R, flt + '::' + h)
+            hb = HH.kalman_helper(ctx.F, flt, h)
             if hb is None:
+                ctx.fail(R, flt, 'ANCHOR-MISSING:' + h, 'no helper of %s scales the noise by %s' % (flt, w))
                 continue
+            ctx.read(hb)
             he = ExprBuilder(hb).place(0, ())
             n += 1
             other = 'std_velocity_weight' if w == 'std_position_weight' else 'std_position_weight'
